@@ -8,6 +8,8 @@ import (
 	"os"
 	"runtime/debug"
 	"sort"
+	"time"
+	"verif/internal/absint"
 
 	"verif/internal/rep"
 )
@@ -34,9 +36,28 @@ func runProp(id, tier string) (code int) {
 			code = r.Finish()
 		}
 	}()
+	// fail closed on non-termination: a change to /repo that sends an analysis into a (practically) endless exploration
+	// must surface as a violation, not as a hang. The budget is far above the slowest check on the unchanged tree.
+	budget := 12 * time.Minute
+	if tier == "thorough" {
+		budget = 45 * time.Minute
+	}
+	done := make(chan struct{})
+	go func() {
+		select {
+		case <-done:
+		case <-time.After(budget):
+			r.Fail("checker-budget", "", "the analysis terminates within its time budget", "", "checker-budget", fmt.Sprintf("the checks of %s did not terminate within %v on this tree (unrecognised shape: an analysis does not converge); reported as a violation rather than left hanging", id, budget))
+			os.Exit(r.Finish())
+		}
+	}()
 	c := newCtx(tier)
 	pc.run(c, r)
-	return r.Finish()
+	close(done)
+	code = r.Finish()
+	absint.ResetGlobals()
+	debug.FreeOSMemory()
+	return code
 }
 
 func main() {
